@@ -148,6 +148,9 @@ pub fn groups() -> Vec<(&'static str, Vec<Spec>)> {
     let r1: &[(&str, f32)] = &[("AcKs", 1.0)];
     let r2: &[(&str, f32)] = &[("KhKd", 0.5)];
     let r3: &[(&str, f32)] = &[("AcKs", 0.5), ("KsQd", 1.0)];
+    let r4: &[(&str, f32)] = &[("7s7h", 1.0)];
+    let r5: &[(&str, f32)] = &[("QcQd", 0.5), ("5d5h", 1.0)];
+    let r6: &[(&str, f32)] = &[("JdTh", 1.0), ("9c9d", 0.5)];
     vec![
         // identical flop, ranges and scope: 1 + 5 showdowns + None + 2 extra = 9 operations each
         ("identical", vec![eval_spec(f1, &[r1, r2], (0, 1, 0, 6), 2), eval_spec(f1, &[r1, r2], (0, 1, 0, 6), 2)]),
@@ -160,6 +163,12 @@ pub fn groups() -> Vec<(&'static str, Vec<Spec>)> {
         // an evaluator beside the parser / formatter
         ("eval-and-parser", vec![eval_spec(f1, &[r1, r2], (0, 1, 0, 6), 2), Spec::Parser { text: "QQ+,AKs:0.5,AsKd".into() }]),
         ("two-parsers-and-eval", vec![Spec::Parser { text: "AKs:0.5,QQ".into() }, Spec::Parser { text: "AKs:0.5,QQ".into() }, eval_spec(f1, &[r1], (0, 1, 0, 2), 0)]),
+        // flops that differ in one low card only, same ranges, same scope: the turn/river cards and the hole
+        // cards coincide call by call, only the flop differs
+        ("near-flops", vec![eval_spec(["Ah", "Kd", "5c"], &[r4, r5], (0, 1, 0, 4), 1), eval_spec(["Ah", "Kd", "2s"], &[r4, r5], (0, 1, 0, 4), 1)]),
+        // ... and scoped to the part of the line where their two decks differ (5c / 2s)
+        ("near-flops-tail", vec![eval_spec(["Ah", "Kd", "5c"], &[r4], (37, 38, 37, 41), 1), eval_spec(["Ah", "Kd", "2s"], &[r4], (37, 38, 37, 41), 1), eval_spec(["Ah", "Kd", "2s"], &[r4], (44, 45, 44, 48), 1)]),
+        ("near-flops-suit", vec![eval_spec(["As", "Ks", "Qs"], &[r6], (0, 1, 0, 5), 1), eval_spec(["As", "Ks", "Js"], &[r6], (0, 1, 0, 5), 1), eval_spec(["As", "Ks", "Jh"], &[r6], (0, 1, 0, 5), 1)]),
         // three evaluators, 6 operations each
         ("three-evaluators", vec![eval_spec(f1, &[r1], (0, 1, 0, 4), 1), eval_spec(f1, &[r1], (0, 1, 0, 4), 1), eval_spec(f2, &[r3], (47, 48, 48, 49), 3)]),
         // four evaluators, 3-4 operations each
